@@ -79,7 +79,8 @@ CLAIMED = {
              "and back-patches exactly GetNumBlocks() 4-byte sizes at the recorded position; string count/array stay paired, strings "
              "are found before appended and the maximum length is refreshed; a length prefix adjusted arithmetically in a fixed-width "
              "local before it is written cannot wrap (found and fixed this way: the one-byte prefix of a 255-character header string "
-             "with null terminator).",
+             "with null terminator); the size-table position recorded while the header is written never survives the save that "
+             "recorded it.",
         note="uint32 overflow of sizes is not decided; header Get/Put layout agreement is decided under C01"),
     "C08": dict(
         cat="translation_validation", ref="DESIGN.md §5 C08",
@@ -102,11 +103,14 @@ CLAIMED = {
              "re-fitting are value-level and not decided"),
     "C10": dict(
         cat="other", ref="DESIGN.md §5 C10",
-        technique="static analysis: sibling agreement of partition-list edits (pairing rule with type-test guard dominance)",
-        text="Thin partial: only the clause 'the dismember partition list stays aligned with the partitions' is decided — every NifFile "
-             "function that changes the length of NiSkinPartition::partitions makes the corresponding edit of "
-             "BSDismemberSkinInstance::partitions under a dismember type test. Exact triangle cover, the bone limit and weight sums "
-             "quantify over runtime values and are NOT decided by this check.",
+        technique="static analysis: sibling agreement of partition-list edits (pairing rule with type-test guard dominance), gate/fill pairing of the partition triangle lists over canonical member paths",
+        text="Thin partial: two structural clauses are decided — (1) 'the dismember partition list stays aligned with the partitions': "
+             "every NifFile function that changes the length of NiSkinPartition::partitions makes the corresponding edit of "
+             "BSDismemberSkinInstance::partitions under a dismember type test; (2) a necessary condition of 'every triangle lies in a "
+             "partition ... in the reloaded file': a function that fills a partition's triangle lists from anything but the "
+             "partition's own sibling list switches that partition's hasFaces flag on (the file stores triangles only under it; found "
+             "and fixed this way: SetDefaultPartition). Exact triangle cover, the bone limit and weight sums quantify over runtime "
+             "values and are NOT decided by this check.",
         note="everything numeric in C10 is outside static reach; this check decides one necessary structural clause only"),
     "C11": dict(
         cat="proof", ref="DESIGN.md §5 C11",
@@ -145,7 +149,9 @@ CLAIMED = {
              "variables and lambda captures) is assigned or has a modifying method called on it in CloneShape/CloneChildren/"
              "CloneNamedNode; a cloned shape is re-linked to geometry data looked up in the destination header; CloneChildren "
              "consults GetChildRefs, GetStringRefs and GetPtrs of the clone, rewrites references to ids returned by the destination "
-             "header's AddBlock and re-registers strings with the destination header.",
+             "header's AddBlock and re-registers strings with the destination header; every SetGeomData re-link passes a pointer "
+             "type that each override it can be dispatched to can accept (found and fixed this way: a cloned NiLines kept the "
+             "source's geometry pointer).",
         note="no aliasing between distinct objects is assumed; which ancestor ids the recursion carries for pointer rebinding and the "
              "bone list content are value-level and not decided"),
     "C15": dict(
